@@ -41,6 +41,11 @@ Definition add_updated (l : loader) (p : list N) : loader :=
 
 Definition entries_of (m : mfile) : list entry := map snd (mf_entries m).
 
+(* the system path a walk of the directory [path] starts at: written without a trailing slash, so that os.path.dirname of a path
+   directly inside it names it (that is how the walks look up the directories they have passed) *)
+Definition walk_top (path : list N) : list N :=
+  let top := pjoin rootdir path in match py_rstrip top [sl] with [] => top | s => s end.
+
 (* get_compressed_suffix_from_filename *)
 Definition compressed_suffix (path : list N) : option (list N) :=
   let ext := snd (splitext path) in
@@ -378,7 +383,7 @@ Section Loader.
                                        (last_mtime : option Z) : res (loader * bool * list call) :=
     '(l', ed) <- get_file_entry_dict w l path None true ;;
     let c := mk_vctx (l_top l') (l_dev l') pol last_mtime in
-    '(_, ed', ret, log) <- walk_verify (nodes_fuel w) w c (pjoin rootdir path) path [] ed true [] ;;
+    '(_, ed', ret, log) <- walk_verify (nodes_fuel w) w c (walk_top path) path [] ed true [] ;;
     (* check for missing directories *)
     r <- fold_left (fun (acc : res (bool * list call)) dd =>
            fold_left (fun (acc2 : res (bool * list call)) fe =>
